@@ -249,27 +249,45 @@ MACHINE_TB = [KERNEL, TIE,
               "io::Bytes delivers the reader's bytes in order (chunking-independent); memchr/SWAR scanning abstracted as a naive scan (C05 proves the SWAR scanner equal to it)"]
 
 PROPS["C10"] = dict(
-    lean_targets=["SJ.Props.C10", "SJ.Audit.C10"],
+    lean_targets=["SJ.Props.C10", "SJ.Props.Typed", "SJ.Audit.C10"],
     configs=dict(quick=["d", "ap"], thorough=["d", "ap", "fr", "po"]),
     gen_keys=["error.", "de."],
     rule="every prefix (length 0..n) of every accepted text among: a fixed corpus of number/escape/container shapes, "
          "grammar-directed random documents, every accepted token sequence of length <= 3 (thorough 4, sharded) over the "
          "41-token structural alphabet; targets Value and IgnoredAny; sources str, slice, reader. One case = one "
-         "(document, target, source) with all its prefixes; non-trivial = document longer than one byte; distinct = distinct lines.",
+         "(document, target, source) with all its prefixes; non-trivial = document longer than one byte; distinct = distinct lines. "
+         "Typed targets (op pfxs): a fixed list of (schema, text) pairs (128-bit bounds, quoted integer/bool/char/unit-enum keys, "
+         "structs from objects and arrays, every enum spelling, bytes from strings with lone surrogates, f32, nested options), the "
+         "crafted typed corpus of C16's op tt, 61 number spellings against every leaf target and as quoted keys of every integer "
+         "width, and 2000 (thorough 20000) random schemas with a matching value's compact and whitespace-spaced text; every "
+         "prefix is run through the universal seed (str, slice or reader) and through the typed model Model.Typed.deTypedTop.",
     trusted_base=MACHINE_TB,
-    assumptions=["typed targets (128-bit integers, quoted numeric/bool keys, raw values) are covered by correspondence only until the typed machine exists",
+    assumptions=["raw values as typed targets are covered by correspondence only (C19); the typed theorems are about the universal "
+                 "seed's schema universe (harness/src/schema.rs), whose visitors are transcribed in SJ/Model/FromValue.lean",
                  "std io::Bytes semantics"],
     partial=["c10_prefix_value_partial: the Value-target theorem carries the exception c = NumberOutOfRange (prefix = complete out-of-range number literal) — open known finding C10-out-of-range-number-prefix",
-             "typed targets and stream iteration: not yet modelled"],
+             "c10_typed_prefix_partial: for schemas containing an f64 / f32 / Value target the typed theorem carries the same inherent "
+             "NumberOutOfRange exception (a prefix can be a complete out-of-range float literal); c10_typed_prefix has no exception "
+             "for every other schema (128-bit integers and all key kinds included)",
+             "stream iteration: not modelled"],
     technique="Lean 4 theorems over a byte-step machine model (fold decomposition + exhaustive analysis of the end-of-input table "
               "against the classify arms regenerated from error.rs) + differential prefix sweep against the crate",
     level_text="Machine-checked: for the Value and IgnoredAny targets, in every feature configuration and for every input source, "
                "every prefix of an accepted text is accepted or fails at the end of the prefix with an Eof-classified error "
                "(c10_prefix_ignored; c10_prefix_value_partial with the single inherent NumberOutOfRange exception made explicit). "
-               "classify and the error codes are regenerated from src/error.rs each run; the machine is compared with the crate on "
-               "every prefix of generated and exhaustive short documents, and the property's own predicate is evaluated on the crate's outputs.",
+               "Typed targets: c10_typed_prefix — for every schema of the typed universe without a float / Value site (bool, twelve "
+               "integer widths incl. 128-bit, char, strings, bytes, option, unit, newtype, seq, tuple, maps with every key kind, "
+               "structs, enums, IgnoredAny), every configuration and source, a proper prefix of a text accepted by the typed "
+               "deserializer + end() is never accepted with a different reading: it fails with an Eof-classified error (visitor "
+               "errors and fuel exhaustion excluded by proof: typed_no_panic, typed_fuel_suffices); c10_typed_prefix_partial covers "
+               "all schemas with the NumberOutOfRange exception; c10_typed_core is the relational core. "
+               "classify and the error codes are regenerated from src/error.rs each run; the machine and the typed model are compared "
+               "with the crate on every prefix of generated and exhaustive short documents, and the property's own predicate is "
+               "evaluated on the crate's outputs.",
     level_note="Trusted: Lean kernel + propext/Classical.choice/Quot.sound; extract.py; harness/driver; the hand-written machine model "
-               "(validated by correspondence, 0 disagreements). Typed targets, 128-bit, map keys, raw values and streams are not yet inside the model.",
+               "(validated by correspondence, 0 disagreements) and the hand-written typed model SJ/Model/Typed.lean (transcription of "
+               "impl Deserializer for &mut Deserializer<R>, validated by ops tt / tt3 / pfxs / rfaults, 0 disagreements). Raw values and "
+               "streams are not inside the typed model.",
 )
 
 PARSE_RULE = ("every token sequence of length <= 3 (thorough: 4, 1/4 sampled by seed) over the 43-token structural alphabet "
@@ -285,11 +303,16 @@ PROPS["C09"] = dict(
     configs=dict(quick=["d", "ap"], thorough=["d", "ap", "fr", "po"]),
     gen_keys=["error.", "de."],
     rule=PARSE_RULE + " C09 adds multi-line documents (spaces turned into newlines) with 4 mutations each; the three sources' "
-         "outcomes (message, category, line, column, value) are compared with each other and with the model.",
+         "outcomes (message, category, line, column, value) are compared with each other and with the model. Typed targets (op tt3): "
+         "the crafted typed corpus and random (schema, text) pairs with byte-level mutations, each from str, slice and a chunked reader.",
     trusted_base=MACHINE_TB,
     assumptions=["io::Bytes yields the reader's bytes one at a time in order, whatever the chunking (std)",
-                 "typed targets, raw values and stream iteration are not yet inside the model"],
-    partial=["typed targets (|delta index| <= 1), 128-bit, raw, stream byte_offset: correspondence pending"],
+                 "raw values and stream iteration are not inside the model; typed targets are modelled (Model.Typed) and run by "
+                 "op tt3 (str, slice, reader outcomes of one text against deTypedTop with src = slice / reader)"],
+    partial=["typed targets: no theorem relates the slice and reader runs of the typed model; the clause (same class, positions at most "
+             "one byte apart between slice and reader — the reader's error() counts the peeked byte — and str = slice exactly) is "
+             "evaluated by op tt3 on the crate's outcomes and the model reproduces both positions (0 disagreements)",
+             "raw, stream byte_offset: correspondence only"],
     technique="Lean 4 theorem: the byte-step machine's outcome is independent of the slice/reader source (step-wise equality + all "
               "error sites include the offending byte) + three-source differential run against the crate",
     level_text="Machine-checked: c09_slice_reader — for every configuration, both untyped targets and every byte string the slice and "
@@ -386,13 +409,15 @@ PROPS["C12"] = dict(
 )
 
 PROPS["C13"] = dict(
-    lean_targets=["SJ.Props.C13", "SJ.Audit.C13"],
+    lean_targets=["SJ.Props.C13", "SJ.Props.Typed", "SJ.Audit.C13"],
     configs=dict(quick=["d"], thorough=["d", "ap", "po"]),
     gen_keys=["error.", "de.", "ser."],
     rule="reader side: 15 fixed + 150 (thorough 1500) generated/mutated documents, a reader that fails at every byte k in 0..=len "
          "with one of 5 error kinds, a random chunking schedule and interleaved Interrupted results, targets Value and IgnoredAny "
          "(modelled) and five typed targets ((i32,i32), Vec<u8>, BTreeMap<String,Vec<i64>>, Option<(String,bool)>, [();3]; "
-         "spec only), each also run with a clean end of input after the same k bytes; stream iteration over a failing reader; "
+         "spec only), each also run with a clean end of input after the same k bytes; schema-typed targets (op rfaults: fixed and "
+         "random (schema, text) pairs through the universal seed, reader failing after every k, compared with the typed model run "
+         "in fault mode); stream iteration over a failing reader; "
          "writer side: 300 (thorough 3000) serializer programs x {compact, pretty} with a writer accepting m bytes for m in "
          "0..=len+1 (sampled for long outputs) under random short-write patterns and Interrupted, recording every buffer handed "
          "to write_all. Non-trivial = k > 0 / m > 0; distinct = distinct lines.",
@@ -402,14 +427,17 @@ PROPS["C13"] = dict(
                  "typed targets are judged by the property's predicate against the same bytes followed by a clean end of input"],
     partial=["whole-program lift of 'every buffer is valid UTF-8 on its own' (c03_utf8_partial + c05_escape_buffers_utf8_cut give it per "
              "string; the correspondence checks every recorded buffer with Spec.Utf8.validUtf8)",
-             "typed targets have no model yet"],
+             "typed targets: c13_typed_fault gives the outcome class (Io, or an error / visitor error located within the delivered "
+             "bytes, never a value) but does not state that the non-Io outcome equals the clean-end-of-input run's; that equality is "
+             "checked per case by op rfaults"],
     technique="Lean 4 theorems: a reader fault instead of end of input turns the fold's finish into Io unless a delivered byte was "
               "already rejected (c13_read, by induction over the fold); writer prefix law over the serializer model's buffer list; "
               "fault-injecting readers/writers against the crate",
     level_text="Machine-checked: c13_read (reader failing after bs: the result is Io iff no delivered byte is rejected, else exactly the "
                "error those bytes produce from any source), c13_read_error_class (that error is Syntax-classified and positioned "
                "within the delivered bytes; never a value, never Eof), c13_write_prefix / c13_write_is_prefix (accepted bytes are the "
-               "first m bytes of the fault-free output; failure iff m < length). The crate is run with readers failing at every "
+               "first m bytes of the fault-free output; failure iff m < length), c13_typed_fault (typed deserializer of any schema over "
+               "a reader that fails after bs: never a value — Io, or a syntax / visitor error positioned inside bs). The crate is run with readers failing at every "
                "byte and writers failing after every byte count, with chunking, short writes and Interrupted.",
     level_note="Trusted: Lean kernel + 3 standard axioms; extract.py; harness/driver; machine and serializer models. std::io retry "
                "loops are assumed. A genuine defect found by this check (Io error yielded twice by a stream) was repaired in /repo.",
@@ -548,7 +576,7 @@ PROPS["C20"] = dict(
 )
 
 PROPS["C16"] = dict(
-    lean_targets=["SJ.Props.C16", "SJ.Audit.C16"],
+    lean_targets=["SJ.Props.C16", "SJ.Props.Typed", "SJ.Audit.C16"],
     configs=dict(quick=["d", "fr"], thorough=["d", "fr", "po", "ap"]),
     gen_keys=["fromvalue."],
     rule="(schema, value) pairs for the universal DeserializeSeed of harness/src/schema.rs, each run through from_value (Value by value), "
@@ -561,6 +589,15 @@ PROPS["C16"] = dict(
          "from gen_schema (depth 0-3, all 18 node kinds, all key kinds) with 1-3 values each from gen_value_for (matching, and deliberately "
          "mismatching at every level: wrong kind, out-of-range and just-in-range integers, floats for integers, extra / missing elements, "
          "unknown / missing / clashing fields, wrong variant payload shapes, ill-formed numeric keys) plus unrelated random values. "
+         "The case line carries to_string(value); the driver runs the typed text model on it. Op tt (typed text deserializer alone): "
+         "(schema, text) pairs from str, slice and chunked reader — a crafted corpus (13 array spellings incl. trailing commas against "
+         "seq / tuple / struct / bytes targets; 12 literal prefixes such as nul, nulx, tru against option and leaf targets; 36 object "
+         "spellings (quoted numeric / bool keys with missing quotes, signs, leading zeros, fractions, escapes) against every key kind "
+         "and structs; 36 enum spellings incl. {\"V\":true ,}; nests of depth 1, 2, 126-129 against typed, Value and IgnoredAny "
+         "targets sharing the recursion budget; raw strings with lone surrogates and invalid UTF-8), 61 number spellings (every "
+         "integer bound +-1 up to 128 bits, exponent overflow, f32 extremes) against every leaf target and as quoted keys of every "
+         "integer width, 1200 (thorough 12000) random schemas with a matching value's compact and whitespace-spaced text and an "
+         "unrelated value's text, and of the short ones every truncation, every single-byte deletion, substitutions at each position and insertions from a 29-byte structural alphabet; outcome = value or (message, category, line, column). "
          "Non-trivial = the schema is not a bare leaf or the value is an array/object; distinct = distinct case lines.",
     trusted_base=[KERNEL, TIE + "; for C16 the translator regenerates the routing table of src/value/de.rs (per method: delegation, "
                   "macro, or Value::K => callee arms; forward_to_deserialize_any lists; leftover checks; numeric-key guard) and "
@@ -579,11 +616,15 @@ PROPS["C16"] = dict(
                  "serde visitors behave as transcribed (they are serde's, not serde_json's); raw_value builds are not in the configurations",
                  "float results are compared only under float_roundtrip or when every number of the value is an integer in [i64::MIN, u64::MAX] "
                  "or a short literal (<= 15 significant digits, |decimal exponent| <= 22), as the statement says"],
-    partial=["c16_agree_partial: the three-way statement is proved for its owned/borrowed leg only (c16_owned_borrowed, full strength over the "
-             "whole universe and every configuration). The text leg — deTyped = de.rs's typed entry points on to_string(v) — awaits the typed "
-             "text machine, which is not part of this branch; meanwhile the three-way agreement is carried by the correspondence run: the "
-             "executable specification compares the three REAL outcomes on every generated pair, and the driver's third model field echoes "
-             "the implementation (no text-side model yet, so that field cannot disagree)",
+    partial=["c16_agree_partial / c16_text_agrees_partial: the owned/borrowed leg is proved in full strength over the whole universe and "
+             "every configuration (c16_owned_borrowed). The text leg — Model.Typed.deTypedTop (transcription of de.rs's typed entry "
+             "points + end()) on the serializer model's to_string(v) equals fromValue — is proved for the fragment bool / twelve integer "
+             "widths / unit / unit struct / Option / newtype / Vec / fixed tuples over float-free non-arbitrary_precision values within "
+             "the depth budget, matching and mismatching values alike. Missing: strings, char, bytes, every map / struct / enum target "
+             "(need the string sub-machine round trip parse(escape s) = s over runPfx), float targets and values (ryu's shape), "
+             "IgnoredAny and Value targets (C01 completeness over runPfx), arbitrary_precision. Outside the fragment the three-way "
+             "agreement is carried by the correspondence run: the executable specification compares the three REAL outcomes on every "
+             "generated pair and the driver's third model field is computed by the typed model from the text (0 disagreements)",
              "the wire codecs of Schema / TVal have no round-trip lemma (decode (enc x) = x); they are exercised on every case line"],
     technique="Lean 4 theorem by mutual structural induction over a nested typed universe: the two transcriptions of src/value/de.rs (owned "
               "Deserializer for Value, borrowed Deserializer for &Value, each with its seq/map/enum/variant access types, sharing Number's "
@@ -599,10 +640,18 @@ PROPS["C16"] = dict(
                "= transcribed routing, regenerated each run). Both "
                "transcriptions are run against the real crate on every generated (schema, value) pair (0 disagreements in four feature "
                "configurations) and the three-way statement (owned, borrowed, from_str of to_string) is evaluated on the crate's own "
-               "outcomes with exactly the statement's exclusions.",
+               "outcomes with exactly the statement's exclusions. Text side: Model.Typed transcribes every deserialize_* entry point "
+               "of impl Deserializer for &mut Deserializer<R> (whitespace, literals, integer / 128-bit / float scanners, strings and raw "
+               "WTF-8 strings, option, seq / tuple with end_seq, maps with MapKey for every key kind, structs, enums, ignored, any, "
+               "recursion budget, error positions for slice and reader); typed_no_panic / typed_fuel_suffices / typed_fuel_irrelevant "
+               "(the model is total and its fuel is sufficient: the result is never `fuel` once fuel > schema size), typed_progress, and "
+               "c16_text_agrees_partial (text leg = from_value on the scalar / sequence fragment). The typed model is compared with the "
+               "crate on every C16 pair's text and on ~200k (schema, text) cases per configuration incl. mutated texts, with message, "
+               "category, line and column (0 disagreements).",
     level_note="Trusted: Lean kernel + propext/Classical.choice/Quot.sound; harness/driver comparison; the universal seed and serde's visitors "
-               "as transcribed; std parse/cast and ryu/Display as parameters. Partial: the text leg of the three-way theorem (typed text "
-               "machine not in this branch) is covered by correspondence only. Open findings (arbitrary_precision only): literal -0, "
+               "as transcribed; std parse/cast and ryu/Display as parameters; the hand-written typed text model (validated by "
+               "correspondence). Partial: the text leg of the three-way theorem is proved on a fragment and covered by correspondence "
+               "elsewhere. Open findings (arbitrary_precision only): literal -0, "
                "non-finite literals into f64, Display-form literals into Value.",
 )
 
@@ -699,8 +748,10 @@ PROPS["C04"] = dict(
                  "the explicit hypothesis FloatsRoundTrip of the theorems (C07's corollary under float_roundtrip, C08's exact case for short "
                  "literals) and is evaluated by the driver on the text the crate printed for every generated float",
                  "io::Write / io::Read deliver bytes in order (Vec writer, chunked reader)"],
-    partial=["typed clause (c04_typed): there is no Lean model of typed (de)serialisation yet; the clause is carried by the correspondence "
-             "run only (op rtt: derived types through the real crate, model = echo) until the typed machine exists",
+    partial=["typed clause (c04_typed): the typed text deserializer now has a Lean model (SJ/Model/Typed.lean, validated under C16 / C10 / "
+             "C13 / C09) but typed SERIALISATION of derived types has none, so no typed round-trip theorem is stated; the clause is "
+             "carried by the correspondence run (op rtt: derived types through the real crate, model = echo). The value-level piece "
+             "that exists: c16_text_agrees_partial (from_str::<T>(to_string(v)) = from_value::<T>(v) on the scalar / sequence fragment)",
              "floats: c04_value takes the hypothesis FloatsRoundTrip cfg ext v (for every Float in v, parsing the text ryu prints gives that "
              "Float back); it is discharged by C07 (float_roundtrip) / C08 (short literals), not here; c04_value_nofloat and c04_value_ap "
              "need no such hypothesis",
